@@ -38,7 +38,7 @@ def scalar_binop(op, a, b):
         b = z3.If(b, z3.IntVal(1), z3.IntVal(0))
     both_int = z3.is_int(a) and z3.is_int(b)
     if op == "Div":
-        a, b = to_real(a), to_real(b)
+        a, b = to_real(a), z3.simplify(to_real(b))
         r = a / b
         if not z3.is_rational_value(b):
             # valid in the reals; spelled out because the solver does not cancel (a/b)*b by itself
